@@ -3,6 +3,7 @@ package main
 import (
 	"fmt"
 	"go/ast"
+	"go/constant"
 	"go/token"
 	"go/types"
 	"sort"
@@ -277,32 +278,69 @@ func ruleNUMPREFIX(c *Ctx) []Obligation {
 		voidable := declaredMethodOf(n, "Sig") != nil
 		// find the prefix statement: fmt.Fprintf(buf, "%s = ", recv.Ident()) at top level or inside a top-level if
 		prefix, conditional, condText := false, false, ""
-		isPrefix := func(st ast.Stmt) bool {
+		// the prefix writes `<ident> = ` first; recognised spellings (n = statements consumed):
+		//   fmt.Fprintf(buf, "%s = ", x.Ident())                       n=1
+		//   buf.WriteString(x.Ident() + " = ")                         n=1
+		//   buf.WriteString(x.Ident()); buf.WriteString(" = ")         n=2
+		isIdentCall := func(e ast.Expr) bool {
+			return strings.HasSuffix(exprString(unparen(e)), ".Ident()")
+		}
+		constStr := func(e ast.Expr) (string, bool) {
+			if tv := info.Types[e]; tv.Value != nil && tv.Value.Kind() == constant.String {
+				return constant.StringVal(tv.Value), true
+			}
+			return "", false
+		}
+		writeArg := func(st ast.Stmt) ast.Expr {
 			es, ok := st.(*ast.ExprStmt)
 			if !ok {
-				return false
+				return nil
 			}
 			call, ok := es.X.(*ast.CallExpr)
-			if !ok || len(call.Args) < 3 {
-				return false
+			if !ok || len(call.Args) != 1 {
+				return nil
 			}
-			f := calleeOf(info, call)
-			if f == nil || f.Pkg() == nil || f.Pkg().Path() != "fmt" || f.Name() != "Fprintf" {
-				return false
+			if se, ok := unparen(call.Fun).(*ast.SelectorExpr); ok && se.Sel.Name == "WriteString" {
+				return call.Args[0]
 			}
-			if tv := info.Types[call.Args[1]]; tv.Value == nil || tv.Value.ExactString() != `"%s = "` {
-				return false
-			}
-			return strings.HasSuffix(exprString(call.Args[2]), ".Ident()")
+			return nil
 		}
-		for _, s := range fd.Body.List {
-			if isPrefix(s) {
+		prefixLen := func(list []ast.Stmt, i int) int {
+			if es, ok := list[i].(*ast.ExprStmt); ok {
+				if call, ok := es.X.(*ast.CallExpr); ok && len(call.Args) >= 3 {
+					if f := calleeOf(info, call); f != nil && f.Pkg() != nil && f.Pkg().Path() == "fmt" && f.Name() == "Fprintf" {
+						if format, ok := constStr(call.Args[1]); ok && format == "%s = " && isIdentCall(call.Args[2]) {
+							return 1
+						}
+					}
+				}
+			}
+			if a := writeArg(list[i]); a != nil {
+				if be, ok := unparen(a).(*ast.BinaryExpr); ok && be.Op == token.ADD && isIdentCall(be.X) {
+					if s, ok := constStr(be.Y); ok && s == " = " {
+						return 1
+					}
+				}
+				if isIdentCall(a) && i+1 < len(list) {
+					if b := writeArg(list[i+1]); b != nil {
+						if s, ok := constStr(b); ok && s == " = " {
+							return 2
+						}
+					}
+				}
+			}
+			return 0
+		}
+		for i, s := range fd.Body.List {
+			if prefixLen(fd.Body.List, i) > 0 {
 				prefix = true
 				break
 			}
-			if is, ok := s.(*ast.IfStmt); ok && len(is.Body.List) == 1 && isPrefix(is.Body.List[0]) {
-				prefix, conditional, condText = true, true, exprString(is.Cond)
-				break
+			if is, ok := s.(*ast.IfStmt); ok && len(is.Body.List) > 0 {
+				if n := prefixLen(is.Body.List, 0); n > 0 && n == len(is.Body.List) {
+					prefix, conditional, condText = true, true, exprString(is.Cond)
+					break
+				}
 			}
 			// stop at the first output statement
 			if es, ok := s.(*ast.ExprStmt); ok {
